@@ -48,6 +48,7 @@ type rtCtx struct {
 	stMu    sync.Mutex
 	cases   map[string]*atomic.Int64
 	samples atomic.Int64
+	sampled sync.Map
 }
 
 func (rt *rtCtx) count(carrier string, n int64) {
@@ -275,7 +276,7 @@ func (rt *rtCtx) doJob(j rtJob) {
 			}
 		}
 		nEval++
-		if nEval&1023 == 0 {
+		if nEval&63 == 0 || f != nil {
 			g.Touch()
 		}
 		h := base
@@ -292,10 +293,12 @@ func (rt *rtCtx) doJob(j rtJob) {
 			c := caseT{Phase: "roundtrip", Carrier: j.carrier, Seq: names(j.seq), WriteEnds: j.writeEnds, Cuts: append([]int(nil), cuts...), OneByte: oneByte, Fast: fast}
 			rt.report(c, w, f)
 			run.Outcome("rt-fail:" + j.carrier + ":" + f.kind + ":" + f.field)
-		} else if rt.samples.Load() < 9 && (len(cuts) == 2 && cuts[0]%7 == 3) {
-			if rt.samples.Add(1) <= 9 {
+		} else if nEval == 40 && len(cuts) == 2 && rt.samples.Load() < 9 && (seqHash(j.seq)+uint64(len(j.writeEnds)))%5 == 0 {
+			// a few written-out cases: at most two per carrier
+			v, _ := rt.sampled.LoadOrStore(j.carrier, new(atomic.Int64))
+			if v.(*atomic.Int64).Add(1) <= 2 && rt.samples.Add(1) <= 9 {
 				run.Sample(map[string]any{"phase": "roundtrip", "carrier": j.carrier, "seq": names(j.seq), "write_ends": j.writeEnds,
-					"cuts": append([]int(nil), cuts...), "stream_len": len(w.data), "result": "same sequence read back"})
+					"cuts": append([]int(nil), cuts...), "carrier_stream_len": len(w.data), "around_first_cut": w.window(cuts), "result": "same sequence read back"})
 			}
 		}
 	}
